@@ -485,7 +485,7 @@ def fam_reset_recommit(g):
     n = rng.randint(1, 3)
     for _ in range(n):
         yield from g.some_edits(n_ai=(1, 2), n_human=(0, 1),
-                                human_kinds=(["insert", "delete", "replace", "append"]
+                                human_kinds=(["insert", "delete", "append"]
                                              if g.gated("reset_multi_commit") else None))
         yield from g.commit_all()
     k = 1 if g.gated("reset_multi_commit") else rng.randint(1, n)
